@@ -8,6 +8,6 @@ import "github.com/rbell/toolchest/storage"
 // Set is followed by a Sweep in the generated histories, and Resize is not exercised.
 const hooked = false
 
-func hold(c *storage.FifoMapCache[int, int])    {}
-func release(c *storage.FifoMapCache[int, int]) {}
-func layout(c *storage.FifoMapCache[int, int]) [][]int { return nil }
+func hold[K comparable, V any](c *storage.FifoMapCache[K, V])          {}
+func release[K comparable, V any](c *storage.FifoMapCache[K, V])       {}
+func layout[K comparable, V any](c *storage.FifoMapCache[K, V]) [][]K { return nil }
